@@ -916,7 +916,7 @@ def check_C18(work):
         # the faulted participant itself also looks the key up after its operation
         j["stages"][-2]["parts"][0]["prog"] += with_vals([op("get", key, **hs)], 1) if o["api"] in ("set", "put", "set_tf", "put_tf", "ensure", "gou") else []
         jobs.append(j)
-    mons = ["DirValid", "FaultOK", "FollowUpOK", "NoLeak", "HandleContentOK", "ReadsLastSet", "DebrisConfined", "Immutable", "PutNeverReplaces"]
+    mons = ["DirValid", "FaultOK", "FollowUpOK", "NoLeak", "HandleContentOK", "HandleModeOK", "ReadsLastSet", "DebrisConfined", "Immutable", "PutNeverReplaces"]
 
     def key_of(job, mon, ev, evs):
         inj = (evs[0].get("cfg") or {}).get("inject") or {}
@@ -957,7 +957,8 @@ def check_C03(work):
         for chunks in (1, 3):
             sc2 = (sc[0], sc[1], sc[2], [dict(o, chunks=chunks) for o in sc[3]], sc[4])
             # clean record run + every fsync of the operation failing in turn
-            ex = {"kind": "fault", "part": 1, "runs": 50, "errnos": {"fsync": ["EIO"], "*": []}}
+            # (also the errnos a filesystem without fsync support would give: a failed flush is never followed by publication, whatever the reason)
+            ex = {"kind": "fault", "part": 1, "runs": 80, "errnos": {"fsync": ["EIO", "EINVAL", "ENOSYS", "EOPNOTSUPP"], "*": []}}
             j = scenario_job("C03-%d-%d" % (i, chunks), "%s:chunks%d" % (sc[0], chunks), sc2, ex, battery=False, age=False,
                              followup=[op("get", sc[3][0].get("key", "k"), hash="1", sec="2")])
             if TIER == "thorough" and chunks == 3:
@@ -1219,8 +1220,31 @@ def c19_extra_jobs():
     return jobs
 
 
+def c19_fault_jobs():
+    """Lookups and promotions with every library call failing in turn: a handle that IS returned is read-only and at offset 0 on the
+    error paths too (a promotion that fails after it consumed the hit must not hand the hit back at end-of-file)."""
+    jobs = []
+    hk = dict(hash="1", sec="2")
+    a1, b1 = shard_ids(1, 2, 2)
+    errs = {"open": ["EIO", "EMFILE"], "stat": ["EIO"], "utimens": ["EIO"], "lseek": ["EIO"], "read": ["EIO"], "copy": ["EIO", "ENOSPC"],
+            "write": ["ENOSPC"], "fsync": ["EIO"], "chmod": ["EIO"], "link": ["EIO", "EXDEV", "EMLINK"], "rename": ["EIO"], "unlink": ["EIO"],
+            "mkdir": ["EACCES"], "*": []}
+    for wname, wr in (("stack", plain("W", 100)), ("stacksh", sharded("W", 2, 100))):
+        cache = stack(wr, [plain("R1")], "none")
+        world = [op("mkfile", path="@TOP@/R1/kr", key="kr", val="ro", chunks=2, w=0, mode=0o444, mt_ago=500.0, at_ago=620.0),
+                 op("mkfile", path="@TOP@/R1/k2", key="k2", val="ro2", chunks=1, w=0, mode=0o444, mt_ago=500.0, at_ago=620.0)]
+        prog = [op("ensure", "kr", **hk), dict(op("gou", "k2", **hk), judge="promote"), op("get", "kr", **hk), dict(op("gou", "kr", **hk), judge="replace"),
+                op("ensure", "fresh", **hk)]
+        v = seq_stage(part(1, cache, with_vals(prog, 1), NEVER))
+        v["victim"] = True
+        cfg = {"roots": roots_of(cache), "front": "stack", "autosync": True}
+        jobs.append(job("C19-fault-%s" % wname, [seq_stage(part(9, plain("SRC/none"), world, NEVER)), v], cfg,
+                        {"kind": "fault", "part": 1, "runs": Q(260, 2000), "errnos": errs}, fam="%s:failing-calls" % wname))
+    return jobs
+
+
 def check_C19(work):
-    return matrix_check(work, "C19", extra_jobs=c19_extra_jobs(), **dict(mons=["HandleModeOK", "HandleContentOK", "Mode0444", "ReadOnlyFirst", "DirValid", "StackOK"], checkers=("none", "eq", "log"), frac=Q(0.12, 0.6),
+    return matrix_check(work, "C19", extra_jobs=c19_extra_jobs() + c19_fault_jobs(), **dict(mons=["HandleModeOK", "HandleContentOK", "Mode0444", "ReadOnlyFirst", "DirValid", "StackOK"], checkers=("none", "eq", "log"), frac=Q(0.12, 0.6),
                         rule="the matrix of Stack.tla x umask {000, 022, 077}: access mode and offset of every returned handle (fcntl(F_GETFL), lseek(SEEK_CUR) before "
                         "reading; judge and checkers consume the files), mode of every published file; plus path-based set/put of sources with mode 0666/0664/0644/0600 under umask 000/002/022", umasks=(0o000, 0o022, 0o077)))
 
@@ -1706,6 +1730,18 @@ def check_C11(work):
             if stacked:
                 cfg["autosync"] = True
             jobs.append(job("C11-%s-%d" % (fname, r), [seq_stage(p1)], cfg, None, fam=fname))
+    # the value handed to set / put is another hard link of the entry cached under the same key (a zero-copy refresh; a retry after a
+    # put whose last unlink failed): rename of two links to one inode is a no-op, the source is consumed all the same
+    for fname, cache, wd in (("plain", plain("W", 100), "W"), ("sharded", sharded("W", 2, 100), shard_dir("W", shard_ids(1, 2, 2)[0])),
+                             ("stack", stack(plain("W", 100), [], "none"), "W")):
+        hk = dict(hash="1", sec="2", srcdir="@TOP@/SRC")
+        prog = [op("set", "k", "v1", **hk), op("set", "k", "v1", srclink="@TOP@/%s/k" % wd, **hk), op("get", "k", hash="1", sec="2"),
+                op("put", "k", "v1", srclink="@TOP@/%s/k" % wd, **hk), op("get", "k", hash="1", sec="2"),
+                op("set", "k", "v1", srclink="@TOP@/%s/k" % wd, **hk), op("set", "k", "v2", **hk), op("get", "k", hash="1", sec="2")]
+        cfg = {"roots": roots_of(cache), "front": cache["kind"], "cap": 100, "seq": True}
+        if fname == "sharded":
+            cfg["shardcap"] = 50
+        jobs.append(job("C11-relink-%s" % fname, [seq_stage(part(1, cache, prog, NEVER))], cfg, None, fam="%s:source-is-a-link-of-the-entry" % fname))
     mons = ["SeqMapOK", "OneCopy", "UnexplainedLoss", "SrcConsumed", "PruneOK", "DirValid", "HandleContentOK", "RemovalOK"]
     st = trace_check(work, out, jobs, mons, tag="c11")
     st = add_pool(work, out, st, ["SeqMapOK", "OneCopy", "UnexplainedLoss", "SrcConsumed", "PruneOK", "DirValid", "HandleContentOK"], want=('seq',))
@@ -1930,13 +1966,21 @@ def persistent_jobs(prefix):
         prog = [op("get", "k1", **hk), op("touch", "k1", **hk), op("get", "absent", **hk), op("put", "k1", **hk), op("set", "k3", **hk), op("put", "k4", **hk)]
         if fname == "stack":
             prog += [op("ensure", "k1", **hk), op("ensure", "kr", **hk), op("ensure", "k9", **hk), op("put_tf", "k5", **hk)]
-        for call, errnos in (("open", ["EMFILE", "ENFILE", "EIO"]), ("stat", ["EIO"]), ("link", ["EIO", "EMLINK"]), ("rename", ["EIO"]),
+        for call, errnos in (("open", ["EMFILE", "ENFILE", "EIO", "ESTALE", "ENOENT"]), ("stat", ["EIO", "ESTALE"]), ("link", ["EIO", "EMLINK"]), ("rename", ["EIO"]),
                              ("unlink", ["EIO"]), ("utimens", ["EIO"]), ("getdents", ["EIO"]), ("mkdir", ["EIO"]), ("chmod", ["EIO"])):
             for er in errnos:
                 j = seq_job(prefix + "-persist-%s-%s-%s" % (fname, call, er), "%s:persistent:%s:%s" % (fname, call, er), cache, prog, world=world, pre=pre,
                             draw=ALWAYS, shard_script=[1, 0] * 10, fault_all={"call": call, "errno": er})
                 j["op_call_limit"] = 600
                 pjobs.append(j)
+                if call in ("open", "stat") and er in ("ESTALE", "ENOENT", "EIO"):
+                    # the same, but only for the entries of the cache directories themselves (a file that stays unopenable -- stale handle,
+                    # dangling link -- while everything around it works)
+                    cdirs = ["W", shard_dir("W", 0), shard_dir("W", 1), "R1"]
+                    j2 = seq_job(prefix + "-persist-%s-%s-%s-entries" % (fname, call, er), "%s:persistent:%s:%s:entries-only" % (fname, call, er), cache, prog,
+                                 world=world, pre=pre, draw=ALWAYS, shard_script=[1, 0] * 10, fault_all={"call": call, "errno": er, "dirs": cdirs})
+                    j2["op_call_limit"] = 600
+                    pjobs.append(j2)
     return pjobs
 
 
